@@ -209,3 +209,72 @@ PROPS.update({
  ),
 })
 
+
+
+# ------------------------------------------------------------------ poller (C13, C12)
+from props_poller import PROPS_POLLER, C12_DAEMON, merge_c12
+PROPS.update(PROPS_POLLER)
+
+C12_CLIENT = dict(
+    oracle='C12',
+    lean_modules=['ClockBound.Properties.C12'],
+    gens=lambda seed, th: [['corder', seed, 20000 if th else 2000]],
+    relevant=lambda c: kind(c) == 'corder',
+    project=lambda c: (c.impl.split(' ; ')[0], c.model.split(' ; ')[0]),
+    nontrivial=lambda c: 'meaningful' in c.tags,
+    rule="client half: the real ClockErrorBound::now() is run under the clock_gettime interposer, which logs the clock id of every read: the log must be [CLOCK_REALTIME, CLOCK_MONOTONIC_COARSE]; non-trivial = inputs in the meaningful range",
+    trusted_base=["the clock_gettime interposer sees every clock read of the process"],
+    technique='Lean 4 proof that containment (C01) needs only ta <= tq and tr <= tm, that either delay only widens the interval, and that either swapped order breaks containment in an explicit world + observation of the real read order under the interposer',
+    level_text='Theorems C12.client_delay_widens / daemon_delay_widens (any delay between the two reads on either side only enlarges the half-width), C01.containment (proved with ta <= tq and tr <= tm as the only ordering facts, hence for every amount of delay), asof_after_query_breaks / mono_before_realtime_breaks (for each swapped order an explicit world in which containment fails: the order is necessary).',
+    level_note='Trusted: Lean kernel + standard axioms; preemption itself is not exercised, only its effect (arbitrary time between the reads).',
+    assumptions=[],
+)
+PROPS['C12'] = merge_c12(C12_CLIENT)
+
+# ------------------------------------------------------------------ seqlock engine (C02, C03, C04, C18)
+SL_TB = [
+    "memory model: view-based operational release/acquire semantics specialised to one writer at a time (append-only message log, per-reader cur/acq views and per-location coherence) as the meaning of 'what the Rust/C11 model permits'; SeqCst treated as acquire+release; the racy 56-byte record copy modelled as 7 relaxed per-cell accesses in any order",
+    "writer incarnations are totally ordered (a restarted daemon sees everything its predecessor wrote); a new process starts with an empty release-fence view; a (re)opened reader starts with no knowledge (may read arbitrarily stale messages)",
+    "the harness scheduler + RA memory (harness/src/ra.rs) re-implements the model's memory; every run is compared token by token with the Lean replay, so a divergence between the two shows up as a correspondence failure",
+]
+
+def sl_gens(seed, th): return [['slgen', seed, 40000 if th else 1500]]
+
+def proj_sl(c): return (c.impl, c.model)
+
+def sl_entry(oracle, nontrivial, rule_extra, **kw):
+    d = dict(
+        oracle=oracle, gens=sl_gens, relevant=lambda c: kind(c) == 'sl', project=proj_sl,
+        require={'ann': 'adequate'}, shrink=False,
+        nontrivial=nontrivial,
+        rule="scenarios: initial segment {fresh, wiped, valid with even/odd/near-wrap generation}; one writer thread with 1-3 incarnations (new + 1-4 writes each, killed mid-update with probability 1/12 per step), 1-2 reader threads (open / snapshot sequences, re-opens); the real ShmWriter/ShmReader code runs as OS threads under a seeded baton-passing scheduler; each shared access is one step; loads return the newest admissible message with probability 3/5, otherwise a uniformly chosen admissible (stale) one; cells are copied in a random order. " + rule_extra,
+        trusted_base=SL_TB,
+    )
+    d.update(kw)
+    return d
+
+PROPS.update({
+ 'C02': sl_entry('C02', lambda c: 'overlap' in c.tags,
+    "non-trivial = the writer takes at least one step between the first and last shared access of some snapshot() call (tag overlap)",
+    lean_modules=['ClockBound.Properties.C02'],
+    technique='Lean 4 invariant proof over all interleavings and all stale-read choices of an operational release/acquire model (writer invariant + reader lemma), parameterised by the observed ordering annotation + schedule-level differential correspondence of the real writer/reader under a deterministic scheduler',
+    level_text='Theorems C02.even_generation_is_complete (writer invariant over every history incl. crashes/restarts), accept_consistent (an accepted attempt copied exactly the record as of its first generation message, provided fewer than 32767 updates completed between its two generation reads), no_mixture / no_mixture_general (every returned record is the empty one, the pre-existing one or one passed to write) for every annotation satisfying Ann.adequate. The annotation is observed from the real code on every run; ~1500 seeded schedules (incl. stale reads and crashes) are executed on the real code and replayed by the model token by token.',
+    level_note='Partial: the racy record copy is modelled as per-cell relaxed atomics; hardware is represented by the C11 RA semantics; the 16-bit ABA (32767 updates inside one read attempt) is excluded by hypothesis and recorded as known finding K1.',
+ ),
+ 'C03': sl_entry('C03', lambda c: 'calls2' in c.tags and ('pubs2' in c.tags or 'catchup' in c.tags),
+    "non-trivial = a reader makes >= 2 calls while >= 2 publications complete, or a quiescent fresh call checks the catch-up clause (tags calls2+pubs2, catchup)",
+    lean_modules=['ClockBound.Properties.C03', 'ClockBound.Properties.C03b'],
+    technique='Lean 4 proof: coherence-based monotonicity invariant over all executions + catch-up theorem for fresh reads on a quiescent log + generation potential function for the 32767 exception; same schedule-level correspondence as C02',
+    level_text='Theorems C03.accepted_monotone / cache_is_accepted_publication (the generation message behind a reader\'s cached snapshot never moves backwards), catches_up (no update in flight + fresh reads + cached generation differs => the call returns the latest completed publication), same_generation_serves_cache and equal_generation_same_message (the documented exception needs >= 32767 completed updates).',
+    level_note='Partial: as C02; "fresh" reads model a quiescent memory system (sequential consistency).',
+ ),
+ 'C18': sl_entry('C18', lambda c: bool(c.tags & {'retry', 'crash', 'exhaust'}),
+    "plus `slx` lines: the real snapshot() alone against scripted load results (a continuously updating writer: the generation changes at every load) until it gives up - the number of attempts must be exactly the budget; non-trivial = a call retried, the writer was killed mid-update, or the budget was exhausted",
+    gens=lambda seed, th: [['slgen', seed, 20000 if th else 800], ['slxgen', 'all'] if th else ['slxgen']],
+    relevant=lambda c: kind(c) in ('sl', 'slx'),
+    lean_modules=['ClockBound.Properties.C18'],
+    technique='Lean 4 termination measure on the reader machine, for every log and every load result + full exhaustion runs of the real snapshot() against an adversarial value script + scheduler runs with a writer killed at every kind of point',
+    level_text='Theorems C18.step_decreases / bounded: every shared access of snapshot() ends the call or strictly decreases an explicit measure <= 2 + 10^6 * 9, whatever the log contains and whatever the loads return (so for a writer stopped for ever at any point or updating continuously); in_flight_answers_from_cache / version_zero_answers_from_cache: an odd or zero generation, or version 0, is answered from the cache after at most two loads.',
+    level_note='Trusted: Lean kernel + standard axioms; the bound is on shared accesses, not on seconds.',
+ ),
+})
